@@ -114,14 +114,17 @@ func (r *Runner) fillExpandConfig(ctx context.Context) {
 				exit: new(exitStatus),
 			}
 			r.bgProcs = append(r.bgProcs, bg)
+			tok := verifSpawn()
 			go func() {
+				verifStart(tok)
+				defer verifEnd()
 				defer func() {
 					*bg.exit = r2.exit
 					close(bg.done)
 				}()
 				switch ps.Op {
 				case syntax.CmdIn:
-					f, err := os.OpenFile(path, os.O_WRONLY, 0)
+					f, err := openFifo(path, os.O_WRONLY)
 					if err != nil {
 						r.errf("cannot open fifo for stdout: %v\n", err)
 						return
@@ -134,7 +137,7 @@ func (r *Runner) fillExpandConfig(ctx context.Context) {
 						os.Remove(path)
 					}()
 				case syntax.CmdOut:
-					f, err := os.OpenFile(path, os.O_RDONLY, 0)
+					f, err := openFifo(path, os.O_RDONLY)
 					if err != nil {
 						r.errf("cannot open fifo for stdin: %v\n", err)
 						return
@@ -307,6 +310,7 @@ func (r *Runner) stop(ctx context.Context) bool {
 }
 
 func (r *Runner) stmt(ctx context.Context, st *syntax.Stmt) {
+	verifYield("stmt")
 	if r.stop(ctx) {
 		return
 	}
@@ -321,7 +325,10 @@ func (r *Runner) stmt(ctx context.Context, st *syntax.Stmt) {
 			exit: new(exitStatus),
 		}
 		r.bgProcs = append(r.bgProcs, bg)
+		tok := verifSpawn()
 		go func() {
+			verifStart(tok)
+			defer verifEnd()
 			r2.Run(ctx, &st2)
 			r2.exit.exiting = false // subshells don't exit the parent shell
 			*bg.exit = r2.exit
@@ -516,7 +523,10 @@ func (r *Runner) cmd(ctx context.Context, cm syntax.Command) {
 			oldIn := r.stdin
 			r.stdin = pr
 			var wg sync.WaitGroup
+			tok := verifSpawn()
 			wg.Go(func() {
+				verifStart(tok)
+				defer verifEnd()
 				r2.stmt(ctx, cm.X)
 				r2.exit.exiting = false // subshells don't exit the parent shell
 				pw.Close()
@@ -524,6 +534,7 @@ func (r *Runner) cmd(ctx context.Context, cm syntax.Command) {
 			r.stmt(ctx, cm.Y)
 			pr.Close()
 			wg.Wait()
+			verifYield("pipeline-joined")
 			r.stdin = oldIn
 			if r.opts[optPipeFail] && !r2.exit.ok() && r.exit.ok() {
 				r.exit = r2.exit
@@ -942,7 +953,10 @@ func (r *Runner) hdocReader(rd *syntax.Redirect) (stdinFile, error) {
 	// as pipe writes may block once the buffer gets full.
 	// We still construct and buffer the entire heredoc first,
 	// as doing it concurrently would lead to different semantics and be racy.
+	tok := verifSpawn()
 	go func() {
+		verifStart(tok)
+		defer verifEnd()
 		io.WriteString(pw, hdoc)
 		pw.Close()
 	}()
@@ -1053,7 +1067,10 @@ func (r *Runner) redir(ctx context.Context, rd *syntax.Redirect) (io.Closer, err
 		r.stdin = pr
 		// We write to the pipe in a new goroutine,
 		// as pipe writes may block once the buffer gets full.
+		tok := verifSpawn()
 		go func() {
+			verifStart(tok)
+			defer verifEnd()
 			io.WriteString(pw, arg)
 			io.WriteString(pw, "\n")
 			pw.Close()
@@ -1189,6 +1206,9 @@ func (r *Runner) open(ctx context.Context, path string, flags int, mode os.FileM
 	dir, name := filepath.Split(path)
 	dir = strings.TrimSuffix(dir, "/")
 	if dir == r.tempDir && strings.HasPrefix(name, fifoNamePrefix) {
+		if verifActive() {
+			return verifOpenFifo(path, flags)
+		}
 		return os.OpenFile(path, flags, mode)
 	}
 
